@@ -290,6 +290,48 @@ def spec_q_pruning(run, scratch):
     return n
 
 
+def check_hmm(run, rec):
+    """A site-HMM configuration (sites_independent=False): the real lnL of the ORDERED alignment against the exact
+    forward / path-sum likelihood of Felsenstein.tla."""
+    from cogent3 import get_model, make_aligned_seqs, make_tree
+
+    key0 = f"hmm:{rec['id']}"
+    nb = len(rec["bprobs"])
+    tree = make_tree(rec["newick"])
+    sm = get_model("K80")
+    leaves = [n for n in rec["leafname"] if n]
+    seqs = {n: [] for n in leaves}
+    for col in rec["cols"]:
+        for node, sym in col.items():
+            seqs[rec["leafname"][int(node) - 1]].append(sym)
+    aln = make_aligned_seqs({n: "".join(s) for n, s in seqs.items()}, moltype="dna")
+    want = math.log(float(frac(rec["alnlik"])))
+
+    def build(switch):
+        lf = sm.make_likelihood_function(tree, bins=nb, sites_independent=False)
+        lf.set_alignment(aln)
+        for (ename, iname, par, ky, kr, mu, n1, q) in rec["edges"]:
+            qf = frac(q)
+            # branch length such that the K80/JC69 closed form has base q: both classes share the edge's q here (mult = 1)
+            t = -float(frac(mu)) * n1 * math.log(float(qf)) if qf != 1 else 0.0
+            lf.set_param_rule("length", edge=ename, value=t, is_constant=True)
+        for b, (par, ky) in enumerate(rec["binpar"]):
+            lf.set_param_rule("kappa", bin=lf.bin_names[b], value=float(frac(ky)), is_constant=True)
+        lf.set_param_rule("bprobs", value=[float(frac(b)) for b in rec["bprobs"]], is_constant=True)
+        lf.set_param_rule("bin_switch", value=switch, is_constant=True)
+        return lf
+
+    lf = build(float(frac(rec["switch"])))
+    got = lf.lnL
+    if abs(got - want) > 1e-9 * max(1.0, abs(want)):
+        bp = [frac(b) for b in rec["bprobs"]]
+        half = len(bp) // 2  # cogent3: the first half of the classes form patch 1
+        run.fail(key0 + ":lnL:" + ("unequal-patch-probabilities" if sum(bp[:half]) != sum(bp[half:]) else "equal-patch-probabilities"),
+                 {"id": rec["id"], "got": got, "want": want, "bprobs": rec["bprobs"], "switch": rec["switch"], "alignment": aln.to_dict()},
+                 what="lnL of the site-HMM differs from the exact sum over patch paths")
+    return len(rec["cols"])
+
+
 def check(run: Run):
     cfg = "MC_Felsenstein_quick.cfg" if run.tier == "quick" else "MC_Felsenstein_thorough.cfg"
     with Scratch("C02") as scratch:
@@ -302,6 +344,10 @@ def check(run: Run):
             if rec["id"] in seen:
                 continue
             seen.add(rec["id"])
+            if rec.get("hmm"):
+                ncols += check_hmm(run, rec)
+                run.sample({"config": rec["id"], "switch": rec["switch"], "bprobs": rec["bprobs"], "exact_alignment_likelihood": rec["alnlik"]}, limit=6)
+                continue
             ncols += check_config(run, rec)
             run.sample({"config": rec["id"], "newick": rec["newick"], "first_column": rec["cols"][0], "exact_likelihood": rec["lik"][0]}, limit=4)
         models = ["JC69", "F81", "HKY85", "TN93", "GTR", "GN", "ssGN", "user:Codon:monomers", "user:Dinucleotide:monomer"]
